@@ -362,25 +362,80 @@ func runC14(c *Ctx) {
 				}
 			}
 		}
+		// a hand-off belongs to the READ/WRITE branch when it is reached from those arms of the switch on the packet
+		// type and from no other arm (nor from the fall-through): decided on paths, so that it makes no difference
+		// whether the send stands in the arm or behind a mode variable the arm sets
+		var otherStarts []*ssa.BasicBlock
+		if d.pktVal != nil {
+			for _, tc := range typeCasesOn(disp, d.pktVal) {
+				if tc.Body != nil && !(isPtrToNamed(tc.Asserted, "sshFxpReadPacket") || isPtrToNamed(tc.Asserted, "sshFxpWritePacket")) {
+					otherStarts = append(otherStarts, tc.Body)
+				}
+			}
+			if head := switchHead(disp, d.pktVal); head != nil {
+				if st := p.NamedType(p.Sftp, "sshFxpStatPacket"); st != nil {
+					if body, isDefault, _ := simulate(head, newPtr(st)); body != nil && isDefault {
+						otherStarts = append(otherStarts, body)
+					}
+				}
+			}
+		}
+		var loopHead func(ssa.Instruction) bool
+		if ls := rangeChanLoops(disp); len(ls) == 1 {
+			loopHead = isLoopHeadStart(ls[0])
+		}
+		inRWSend := func(s ssa.Instruction) bool {
+			isS := func(in ssa.Instruction) bool { return in == s }
+			from := func(starts []*ssa.BasicBlock) bool {
+				for _, h := range starts {
+					if reachFromBlock(h, isS, loopHead) {
+						return true
+					}
+				}
+				return false
+			}
+			return from(rwBodies) && !from(otherStarts)
+		}
 		inRW := func(b *ssa.BasicBlock) bool {
-			for _, h := range rwBodies {
-				if h.Dominates(b) {
+			for _, in := range b.Instrs {
+				if _, isSend := in.(*ssa.Send); isSend && inRWSend(in) {
 					return true
 				}
 			}
 			return false
 		}
+		// a channel is identified by the make(chan) it comes from, whatever holds it (a variable, a captured variable, a
+		// field of a local struct)
+		sameOrigin := func(a, b []*ssa.MakeChan) bool {
+			if len(a) != len(b) || len(a) == 0 {
+				return false
+			}
+			for i := range a {
+				if a[i] != b[i] {
+					return false
+				}
+			}
+			return true
+		}
+		var rwOrg, cmdOrg []*ssa.MakeChan
 		for i, s := range d.sends {
-			cell := cellOf(s.Chan)
-			if cell == nil {
+			org, okO := chanOrigins(s.Chan)
+			if !okO || len(org) != 1 {
 				c.und("R6", fmt.Sprintf("hand-off #%d channel", i+1), pos(s), "cannot resolve the channel variable")
 				continue
 			}
+			if cell := cellOf(s.Chan); cell != nil {
+				if inRW(s.Block()) {
+					d.rwCell = cell
+				} else {
+					d.cmdCell = cell
+				}
+			}
 			if inRW(s.Block()) {
-				d.rwCell = cell
+				rwOrg = org
 				continue
 			}
-			d.cmdCell = cell
+			cmdOrg = org
 			// count runWorker calls with this channel in workerChan
 			var calls []ssa.Instruction
 			eachInstr(wc, func(in ssa.Instruction) {
@@ -392,17 +447,17 @@ func runC14(c *Ctx) {
 					return
 				}
 				for _, a := range cc.Args {
-					if cellOf(a) == cell {
+					if ao, okA := chanOrigins(a); okA && sameOrigin(ao, org) {
 						calls = append(calls, in)
 					}
 				}
 			})
-			okOne := len(calls) == 1 && !inLoop(calls[0])
+			okOne := len(calls) == 1 && !inLoop(calls[0]) && !inLoop(org[0])
 			c.check(okOne, "R6", fmt.Sprintf("sequential channel of hand-off #%d", i+1), pos(s),
 				"the channel that carries CLOSE and all other commands is served by exactly one worker",
 				fmt.Sprintf("the command channel is handed to runWorker %d times (or inside a loop): CLOSE and other commands no longer run sequentially", len(calls)))
 		}
-		if d.cmdCell != nil && d.rwCell != nil && d.cmdCell == d.rwCell {
+		if cmdOrg != nil && rwOrg != nil && sameOrigin(cmdOrg, rwOrg) {
 			c.bad("R6", "command channel distinct", p.Pos(wc.Pos()), "CLOSE is handed to the same channel as READ/WRITE")
 		}
 		// runWorker closures start exactly one goroutine per call
